@@ -205,6 +205,33 @@ theorem convert_simple_location (p : Part) (s e : Int) (h0 : 0 ≤ s) (hse : s <
       = .ok (if p.strand == .rev then (p.hi - e * 3, p.hi - s * 3) else (p.lo + s * 3, p.lo + e * 3)) :=
   convert_simple p s e h0 hse he
 
+/-- THE GENE'S OWN TABLE (`CDSFeature.from_biopython` for a CDS without a usable /translation, reached through
+    `Record.from_biopython`): the translation antiSMASH stores is generated under `T = cdsTable recordTable qual` —
+    the CDS's own /transl_table when it has one, the record's otherwise — which is also the gene's `transl_table`
+    attribute.  Hence, for every genetic-code family `code`, every sub-location for residues `[s,e)`, `1 ≤ s`,
+    up to the first stop, translated under the gene's OWN table, is exactly that stretch of the stored translation
+    (residue 0 is the start codon, always shown as `M`: `forceMet`).  A translation generated under any other table
+    (the seeded change: the record's default) falsifies this as soon as the tables differ in a codon of the range. -/
+theorem cds_translation_own_table {β} (seq : Int → β) (compl : β → β) (code : Nat → β × β × β → Char)
+    (l : Loc) (hwf : geneWF l = true) (recordTable : Nat) (qual : Option Nat) (s e : Nat) (hs : 1 ≤ s) (hse : s < e)
+    (he : (e : Int) ≤ l.len / 3)
+    (hclean : ∀ c ∈ (translate (code (cdsTable recordTable qual)) (extract seq compl l)).take e,
+      "*BJOUZ".toList.contains c = false) :
+    ∃ r, subLocation l s e = .ok r ∧
+      translate (code (cdsTable recordTable qual)) (extract seq compl r)
+        = sliceL (cdsGeneratedTranslation (fun t => translate (code t) (extract seq compl l)) recordTable qual) s e := by
+  obtain ⟨r, hr, _, ht⟩ := sub_extract_translate seq compl (code (cdsTable recordTable qual)) l hwf s e hse he
+  refine ⟨r, hr, ?_⟩
+  rw [ht]
+  unfold cdsGeneratedTranslation
+  rw [sliceL_forceMet _ s e hs]
+  apply sliceL_of_take_eq
+  symm
+  apply aaTranslation_take _ e (by omega) _ hclean
+  have hl := extract_length seq compl l hwf
+  simp only [translate, List.length_map, codons_length]
+  omega
+
 /-! ### non-vacuity and witnesses (all decided by the kernel on the model) -/
 
 /-- D8 witnesses, now repaired: the origin-spanning forward gene join{[90:102),[0:21)} and its reverse twin -/
@@ -279,5 +306,16 @@ example : ascDisjointB [⟨0, 6, .fwd⟩, ⟨12, 15, .fwd⟩, ⟨21, 27, .fwd⟩
 example : convertProteinToDna 1 5 (.compound [⟨0, 6, .fwd⟩, ⟨12, 15, .fwd⟩, ⟨21, 27, .fwd⟩]) = .ok (3, 27) := by decide
 example : convertProteinToDna 1 5 (.compound [⟨21, 27, .rev⟩, ⟨12, 15, .rev⟩, ⟨0, 6, .rev⟩]) = .ok (0, 24) := by decide
 example : convertProteinToDna 0 2 d8Fwd = .ok (0, 6) ∧ (bases d8Fwd)[0]? = some 90 := by decide
+
+/-- the seed's witness in the model: `ATG AAA TGA CCC …` — under the gene's table 4 `TGA` is `W` and the stored
+    translation runs on; under the record's table 11 it would stop after `MK` -/
+example : cdsTable 11 (some 4) = 4 ∧ cdsTable 11 none = 11 := by decide
+example : cdsGeneratedTranslation (fun t => if t = 4 then "MKWPGFTCHL*".toList else "MK*PGFTCHL*".toList) 11 (some 4)
+    = "MKWPGFTCHL".toList := by decide
+example : cdsGeneratedTranslation (fun t => if t = 4 then "MKWPGFTCHL*".toList else "MK*PGFTCHL*".toList) 11 none
+    = "MK".toList := by decide
+/-- alternate start codon shown as M; a gene that is nothing but a stop comes back as X -/
+example : cdsGeneratedTranslation (fun _ => "LKW*".toList) 1 none = "MKW".toList
+    ∧ aaTranslation "*".toList = "X".toList := by decide
 
 end ASV.C09
